@@ -202,6 +202,24 @@ CHECKS = {
              "explicit one in a subprocess.",
         design_ref="DESIGN.md section 3, C18",
         note="Quick replays a seeded sample of 1500 of the ~13k behaviours of length three; thorough replays all."),
+    "C19": dict(
+        technique="TLA+ spec (Measure: nominal value + first-order dependence on independent variables + units; conversion, constructor forms, arithmetic, value of a notation record, composition of rendered forms) model-checked with TLC; every TLC state executed on pint",
+        text="TLC checks the laws of the measurement model (relative error unchanged under multiplicative conversion; deviation scaled by the "
+             "slope only, offsets move the nominal value; converting back is the identity; every constructor form rejects a negative error and "
+             "all forms agree; x - x and x / x carry no uncertainty; (x + y) - y = x; independent variances add, fully correlated operands "
+             "cancel; x**2 = x * x; shorthand digits align with the last digits of the nominal value) and enumerates 5189 states which are all "
+             "executed on pint: 252 constructor cases over 7 forms (value, error, rel, units; ValueError for negative errors), 49 conversions "
+             "(m / cm / km / s / K / degC / degF; to, ito, plain nominal, quantity with ufloat magnitude), 3606 arithmetic expressions of depth "
+             "<= 2 over a pool with shared variables, a plain quantity and a bare number, in two representations (Measurement objects and "
+             "quantities with ufloat magnitudes): nominal value, derivative with respect to every variable, variance, units or the refusal "
+             "kind; 1326 notation records rendered in every spelling (about 18k texts: '+/-' and the unicode sign, spacing, exponent "
+             "spellings e6 / e+6 / e+06 / E+06 / e-6, sign inside and outside the parentheses, shorthand v(d) and v(.d), a numeric factor in "
+             "front, **2 behind, with / without unit, at the end of the input) parsed by the registry; 16 (flag, shape) renderings assembled "
+             "from the pieces of the magnitude and compared with format(m, spec) over numeric specs, units and the abbreviation flag. Random "
+             "conversions (offset units included) and random expressions on the bundled registry are compared with plain quantities and "
+             "numerical differentiation.",
+        design_ref="DESIGN.md section 3, C19",
+        note="The rendering of the numbers themselves (rounding to the uncertainty's digits) is the uncertainties package's, taken as given; the check is about how pint composes the pieces. LaTeX / siunitx measurement formats are not modelled."),
     "C04": dict(
         technique="TLA+ spec (UnitAlgebra, LinAlg) model-checked with TLC; TLC-generated cases replayed into pint; recorded operations validated by a TLC trace spec",
         text="TLC checks exhaustively (3 names, exponents -2..2 and +-1/2, all pairs, all powers, triples) that the operational model of "
